@@ -24,6 +24,7 @@ pub static PROP: Prop = Prop {
         "the derivative clause is checked for the polynomial signature only",
     ],
     fixed: Some(fixed),
+    scale: None,
 };
 
 fn check(t: &mut Tape, ctx: &mut Ctx) -> CheckResult {
